@@ -30,6 +30,8 @@ CONSTS = [
     ("unitHashTableSizeExp", "ABTI_UNIT_HASH_TABLE_SIZE_EXP"),
     ("unitHashTableSize", "ABTI_UNIT_HASH_TABLE_SIZE"),
     ("keyIdEnd", "ABTI_KEY_ID_END_"),
+    ("keyIdStackableSched", "ABTI_KEY_ID_STACKABLE_SCHED"),
+    ("keyIdMigration", "ABTI_KEY_ID_MIGRATION"),
     ("memPoolDescElemSize", "ABTI_MEM_POOL_DESC_ELEM_SIZE"),
     ("cacheLine", "ABT_CONFIG_STATIC_CACHELINE_SIZE"),
     ("sizeofYthread", "sizeof(ABTI_ythread)"),
